@@ -43,6 +43,7 @@ LEVEL_TEXT = ("Differential runtime monitor: the bare line-shape/barrier functio
               "documented closed formula (obtained from ConfigLoader cards) are compared with NumPy transcriptions of the docstring formulas "
               "on random parameter sets and mass grids; symbolic denominators are evaluated and compared with the numeric shapes.")
 TECHNIQUE = "differential runtime monitor vs NumPy transcription of the documented formulas"
+KF_INHERITED_DOM = "sympy denominator inherited from the plain BWR particle by a model with another shape (BWR_normal, GS_rho, LASS)"
 
 MODELS = ["BW", "default", "BWR2", "BWR_below", "BWR_normal", "BWR_coupling", "BWR_LS", "BWR_LS2", "MultiBWR", "GS_rho", "Flatte", "FlatteC",
           "one", "exp", "exp_com", "x"]
@@ -86,6 +87,7 @@ def run(ctx):
     import tensorflow as tf
 
     from tf_pwa import breit_wigner as bw
+    from tf_pwa.amp.core import Particle
 
     T = lambda x: tf.constant(np.asarray(x, dtype=np.float64))
 
@@ -360,7 +362,8 @@ def run(ctx):
         if below_thr:
             ctx.covered("below_threshold_m0", model)
         # (3) symbolic denominators
-        if model in ("BW", "default", "BWR_coupling", "BWR_LS", "Flatte", "FlatteC") and i // len(MODELS) % 2 == 0:
+        if model in ("BW", "default", "BWR_coupling", "BWR_LS", "Flatte", "FlatteC", "BWR2", "BWR_below", "BWR_normal", "GS_rho") and (i // len(MODELS) % 2 == 0 or model in ("BWR_normal", "GS_rho")) \
+                and not (below_thr and model in ("BWR2", "BWR_below")):
             try:
                 import sympy as sym
 
@@ -396,6 +399,8 @@ def run(ctx):
                     want = 1 / shape
                 dvs = cdev(vals, want)
                 smech = "sympy denominator: " + model + (" (fix_bug1=False)" if model == "BWR_LS" and not fix_bug1 else "")
+                if model in ("BWR_normal", "GS_rho") and type(R).get_sympy_dom is Particle.get_sympy_dom:
+                    smech = KF_INHERITED_DOM
                 ctx.check("sympy denominator == 1/shape", dvs < 1e-8, lambda: dict(desc(), dev=dvs, sympy=vals[:2], numeric=want[:2]), mechanism=smech)
             except NotImplementedError:
                 ctx.count("sympy_dom_not_provided:" + model)
